@@ -71,9 +71,65 @@ End Final.
 From PL.C23 Require Import ProofsCube.
 From Coq Require Import Lqa Setoid.
 
+Section WithADsGen.
+  (* general form: constraint clauses `ads` present; `okc` is an invariant of every cube read back
+     from a model of the encoding, and the weight lemma is required for such cubes only *)
+  Variables (solver : list (list Z) -> option (list Z)) (g : dag) (ads : list clause)
+            (weighted : Z -> bool) (w : Z -> Q * Q) (q : Z).
+  Hypothesis Hwf : wf_dag g = true.
+  Hypothesis Hw : weights_on_atoms g weighted.
+  Hypothesis Hr : in_range (length g) (completion g ++ ads) = true.
+  Hypothesis Hs : solver_sound_c solver.
+  Hypothesis Hc : solver_complete_c solver.
+  Hypothesis Hnn : nonneg w.
+  Hypothesis Hq : 0 < Z.abs q <= Z.of_nat (length g).
+  Variable okc : list Z -> Prop.
+  Hypothesis Hok : forall extra sol, consistent sol ->
+    all_sat sol (encode (length g) true ((completion g ++ ads) ++ extra)) = true ->
+    okc (from_partial weighted sol).
+  Hypothesis Hcw : forall c, cube_good g c -> okc c ->
+    (cube_weight w c == wmc w (length g) (fun a => holds_all a (completion g ++ ads) && cube_sat a c))%Q.
+  Hypothesis Hone : (wmc w (length g) (fun a => holds_all a (completion g ++ ads)) == 1)%Q.
+
+  Lemma lower_gen b : reach solver g ads weighted w q b ->
+    (b_value b <= prob w (length g) (completion g ++ ads) q)%Q.
+  Proof. intro Hb. exact (border_lower solver g ads weighted w Hwf Hw Hs Hnn okc Hok Hcw q Hq b Hb). Qed.
+
+  Lemma exact_gen b : reach solver g ads weighted w q b -> b_impr b = None ->
+    (b_value b == prob w (length g) (completion g ++ ads) q)%Q.
+  Proof. intros Hb Hn. exact (border_exact solver g ads weighted w Hwf Hw Hr Hs Hc okc Hok Hcw q Hq b Hb Hn). Qed.
+
+  Lemma evaluate_gen lower_only conv fuel r lb ub :
+    evaluate solver (length g) weighted w lower_only conv fuel (completion g ++ ads) q = (r, lb, ub) ->
+    match r with
+    | Value v => (v == prob w (length g) (completion g ++ ads) q)%Q
+    | Interval lo hi | OutOfFuel lo hi =>
+        (lo <= prob w (length g) (completion g ++ ads) q /\ prob w (length g) (completion g ++ ads) q <= hi)%Q
+    end.
+  Proof.
+    unfold evaluate. intro E.
+    destruct (loop_sound solver g ads weighted w Hwf Hw Hr Hs Hc Hnn okc Hok Hcw q Hq Hone lower_only conv fuel
+                _ _ r lb ub (reach_init _ _ _ _ _ _) (reach_init _ _ _ _ _ _) E) as [_ [_ H]].
+    destruct r; exact H.
+  Qed.
+
+  Lemma explain_gen conv fuel v lb ub :
+    evaluate solver (length g) weighted w true conv fuel (completion g ++ ads) q = (Value v, lb, ub) ->
+    (sumQ (explain_probs w lb) == prob w (length g) (completion g ++ ads) q)%Q /\ (v == sumQ (explain_probs w lb))%Q.
+  Proof.
+    unfold evaluate. intro E.
+    assert (Hlv : is_complete lb = true /\ v = b_value lb) by (eapply loop_lower_value; [reflexivity|exact E]).
+    destruct Hlv as [Hcm Hv].
+    destruct (loop_sound solver g ads weighted w Hwf Hw Hr Hs Hc Hnn okc Hok Hcw q Hq Hone true conv fuel
+                _ _ _ lb ub (reach_init _ _ _ _ _ _) (reach_init _ _ _ _ _ _) E) as [Hl [_ H]].
+    assert (Hex : (sumQ (explain_probs w lb) == prob w (length g) (completion g ++ ads) q)%Q).
+    { exact (explain_sound solver g ads weighted w Hwf Hw Hr Hs Hc okc Hok Hcw q Hq lb Hl Hcm). }
+    split; auto. simpl in H. rewrite Hex. exact H.
+  Qed.
+End WithADsGen.
+
 Section WithADs.
-  (* general form: constraint clauses `ads` present; the two counting facts about the
-     weights are hypotheses *)
+  (* the two counting facts about the weights as hypotheses, for ALL good cubes *)
   Variables (solver : list (list Z) -> option (list Z)) (g : dag) (ads : list clause)
             (weighted : Z -> bool) (w : Z -> Q * Q) (q : Z).
   Hypothesis Hwf : wf_dag g = true.
@@ -86,13 +142,21 @@ Section WithADs.
   Hypothesis Hcw : cube_weight_is_wmc g ads w.
   Hypothesis Hone : (wmc w (length g) (fun a => holds_all a (completion g ++ ads)) == 1)%Q.
 
+  Let okc : list Z -> Prop := fun _ => True.
+  Let Hok : forall extra sol, consistent sol ->
+    all_sat sol (encode (length g) true ((completion g ++ ads) ++ extra)) = true ->
+    okc (from_partial weighted sol) := fun _ _ _ _ => I.
+  Let Hcw' : forall c, cube_good g c -> okc c ->
+    (cube_weight w c == wmc w (length g) (fun a => holds_all a (completion g ++ ads) && cube_sat a c))%Q :=
+    fun c Hg _ => Hcw c Hg.
+
   Lemma lower_ads b : reach solver g ads weighted w q b ->
     (b_value b <= prob w (length g) (completion g ++ ads) q)%Q.
-  Proof. intro Hb. eapply border_lower; eauto. Qed.
+  Proof. exact (lower_gen solver g ads weighted w q Hwf Hw Hs Hnn Hq okc Hok Hcw' b). Qed.
 
   Lemma exact_ads b : reach solver g ads weighted w q b -> b_impr b = None ->
     (b_value b == prob w (length g) (completion g ++ ads) q)%Q.
-  Proof. intros Hb Hn. eapply border_exact; eauto. Qed.
+  Proof. exact (exact_gen solver g ads weighted w q Hwf Hw Hr Hs Hc Hq okc Hok Hcw' b). Qed.
 
   Lemma evaluate_ads lower_only conv fuel r lb ub :
     evaluate solver (length g) weighted w lower_only conv fuel (completion g ++ ads) q = (r, lb, ub) ->
@@ -101,26 +165,12 @@ Section WithADs.
     | Interval lo hi | OutOfFuel lo hi =>
         (lo <= prob w (length g) (completion g ++ ads) q /\ prob w (length g) (completion g ++ ads) q <= hi)%Q
     end.
-  Proof.
-    unfold evaluate. intro E.
-    destruct (loop_sound solver g ads weighted w Hwf Hw Hr Hs Hc Hnn Hcw q Hq Hone lower_only conv fuel
-                _ _ r lb ub (reach_init _ _ _ _ _ _) (reach_init _ _ _ _ _ _) E) as [_ [_ H]].
-    destruct r; exact H.
-  Qed.
+  Proof. exact (evaluate_gen solver g ads weighted w q Hwf Hw Hr Hs Hc Hnn Hq okc Hok Hcw' Hone lower_only conv fuel r lb ub). Qed.
 
   Lemma explain_ads conv fuel v lb ub :
     evaluate solver (length g) weighted w true conv fuel (completion g ++ ads) q = (Value v, lb, ub) ->
     (sumQ (explain_probs w lb) == prob w (length g) (completion g ++ ads) q)%Q /\ (v == sumQ (explain_probs w lb))%Q.
-  Proof.
-    unfold evaluate. intro E.
-    assert (Hlv : is_complete lb = true /\ v = b_value lb) by (eapply loop_lower_value; [reflexivity|exact E]).
-    destruct Hlv as [Hcm Hv].
-    destruct (loop_sound solver g ads weighted w Hwf Hw Hr Hs Hc Hnn Hcw q Hq Hone true conv fuel
-                _ _ _ lb ub (reach_init _ _ _ _ _ _) (reach_init _ _ _ _ _ _) E) as [Hl [_ H]].
-    assert (Hex : (sumQ (explain_probs w lb) == prob w (length g) (completion g ++ ads) q)%Q).
-    { eapply explain_sound; eauto. }
-    split; auto. simpl in H. rewrite Hex. exact H.
-  Qed.
+  Proof. exact (explain_gen solver g ads weighted w q Hwf Hw Hr Hs Hc Hnn Hq okc Hok Hcw' Hone conv fuel v lb ub). Qed.
 End WithADs.
 
 Section ADFree.
